@@ -91,6 +91,7 @@ def _check_main(run, P):
     _raise(run, P)
     _cycle(run, P)
     _edges_kept(run, P)
+    _messages(run, P)
     flag(run, P, "C10.flag")
     _switch(run, P)
 
@@ -285,6 +286,43 @@ def _raise(run, P):
                why="exceptions propagate")
 
 
+def _messages(run, P):
+    """Whenever a subset test fails at least one message is appended."""
+    f = P.func(f"{MOD}.verify_all_dependencies_exist")
+    errs = f.params[1]
+    n = 0
+    for t in ast.walk(f.node):
+        if not isinstance(t, ast.If):
+            continue
+        test = t.test
+        if not (isinstance(test, ast.UnaryOp) and isinstance(test.op, ast.Not)
+                and isinstance(test.operand, ast.Compare) and len(test.operand.ops) == 1
+                and isinstance(test.operand.ops[0], ast.LtE)):
+            continue
+        a_, b_ = norm(test.operand.left), norm(test.operand.comparators[0])
+        ext = [x for x in ast.walk(t) if isinstance(x, ast.Call)
+               and dotted(x.func) in (f"{errs}.extend", f"{errs}.append") and x.args]
+        ok = False
+        shape = "no message"
+        for x in ext:
+            arg = x.args[0]
+            if dotted(x.func).endswith(".append") or (isinstance(arg, (ast.List, ast.Tuple)) and arg.elts):
+                ok = True
+                shape = "one message, unconditionally"
+            elif isinstance(arg, (ast.ListComp, ast.GeneratorExp)):
+                it = norm(arg.generators[0].iter)
+                ok = it in (f"{a_} - {b_}", f"sorted({a_} - {b_})") and not arg.generators[0].ifs
+                shape = f"one message per element of {it}"
+        n += 1
+        run.ob("C10.raise", f, t, ok,
+               construct=f"if not {a_} <= {b_}: {shape}",
+               why="messages enumerated from the wrong difference can be none at all: the "
+                   "error list stays empty, the next pass trips over the dangling id and "
+                   "a KeyError leaves verify_code instead of the documented error")
+    if n < 2:
+        raise AnalysisError("verify_all_dependencies_exist: subset tests not found")
+
+
 def _edges_kept(run, P):
     """The dependency edges a statement is described with reach the verifier
     unchanged (the cycle check reads <statement>.depends_on)."""
@@ -356,7 +394,17 @@ def _cycle(run, P):
                "visited is expanded forever")
     visiting = visiting[0] if visiting else "?"
     eloops = [n for s_ in expand for n in ast.walk(s_) if isinstance(n, ast.For)
-              and norm(n.iter) == f"{top}.depends_on"]
+              and norm(n.iter) in (f"{top}.depends_on", f"sorted({top}.depends_on)")]
+    if eloops:
+        gg = CFG(f.node)
+        marks = [n_ for n_ in gg.nodes if n_.kind == "stmt" and n_.ast is not None and any(
+            isinstance(x, ast.Call) and dotted(x.func) == f"{visiting}.add" for x in walk_fragment(n_.ast))]
+        head_ = gg.node_of(eloops[0])
+        run.ob("C10.cycle", f, marks[0].ast if marks else eloops[0],
+               bool(marks) and head_ is not None and not gg.always_preceded([head_], marks),
+               construct="the node is marked 'visiting' before its dependencies are looked at",
+               why="marked afterwards, an edge from a statement to itself is not a back edge "
+                   "when it is examined: a self-dependent statement is accepted")
     ok = False
     if len(eloops) == 1 and isinstance(eloops[0].target, ast.Name):
         el = eloops[0]
